@@ -552,7 +552,7 @@ def check_aead(cfg, acc):
     if back != pt:
         _viol(acc, cfg, "decrypt", "%s: decrypt_and_verify(specification ciphertext) = %s" % (desc, short(back)))
     acc.count("bytes_compared", 2 * L + len(exp_tag))
-    if L in (17, 33) and cfg.get("tl") in (None, 16, 8):
+    if L in (17, 33) and cfg.get("tl") in (None, 16, 8) and cfg["aad"]:
         acc.sample({"part": "aead", "cipher": c, "mode": mode, "key": key, "nonce": nonce, "aad": aad if isinstance(aad, bytes) else list(aad),
                     "message": pt, "ciphertext": ct, "tag": tag, "equals_reference": ct == exp_ct and tag == exp_tag})
 
@@ -676,6 +676,12 @@ def check_stream(cfg, acc, lengths=None):
             got = e.encrypt(pt)
             back = mk().decrypt(exp)
         except Exception as ex:  # noqa
+            if cfg.get("lastblock") and isinstance(ex, (ValueError, OverflowError)):
+                # limit territory (C11): the reference (RFC 8439: counter values 0..2^32-1) can use block 2^32-1,
+                # the library refuses it.  A refusal is not a wrong ciphertext: logged, never a verdict here.
+                acc.observe("ChaCha20 with a 12/24-byte nonce refuses to produce the last legal keystream block "
+                            "(counter 0xFFFFFFFF), e.g. seek(64*(2**32-1)): %s" % type(ex).__name__)
+                continue
             _raised(acc, case, ex, "%s encrypt/decrypt" % c)
             continue
         if got != exp:
@@ -688,6 +694,9 @@ def check_stream(cfg, acc, lengths=None):
             _viol(acc, case, "nonce-attr", "%s: cipher.nonce = %s, nonce in use %s"
                   % (c, short(getattr(e, "nonce", None)), short(nonce)))
         acc.count("bytes_compared", 2 * L)
+        if L == 65:
+            acc.sample({"part": "stream", "cipher": c, "key": key, "nonce": nonce, "params": list(sig), "message": pt,
+                        "ciphertext": got, "equals_reference": got == exp})
 
 
 # ---------------------------------------------------------------------------
@@ -717,6 +726,8 @@ def check_kw(cfg, acc):
         _viol(acc, cfg, "decrypt", "AES-%s key=%s unseal(specification wrapping of %s) = %s"
               % (mode, short(key, 32), short(p), short(back)))
     acc.count("bytes_compared", 2 * L + 8)
+    if L == 24:
+        acc.sample({"part": "kw", "mode": mode, "key": key, "payload": p, "wrapped": got, "equals_reference": got == exp})
 
 
 # ---------------------------------------------------------------------------
@@ -969,13 +980,13 @@ def classic_keys(quick):
 
 
 def gcm_nonce_lens(quick):
-    return GCM_NL if quick else tuple(range(1, 34)) + (47, 48, 49, 63, 64, 65, 127, 128, 129)
+    return GCM_NL if quick else tuple(range(1, 34)) + (47, 48, 49, 63, 64, 65, 127, 128, 129, 255, 256, 257, 1025)
 
 
 def eax_nonce_lens(quick, bs):
     if bs == 8:
         return (1, 8, 9) if quick else (1, 7, 8, 9, 16, 17)
-    return (1, 8, 16, 17) if quick else (1, 8, 15, 16, 17, 31, 32, 33)
+    return (1, 8, 16, 17) if quick else (1, 8, 15, 16, 17, 31, 32, 33, 64, 65)
 
 
 def siv_nonce_lens(quick):
@@ -1070,8 +1081,11 @@ def plan(quick, seed):
     S.append((3, ("des3key", "degenerate", seeded("c02/degen", 8, seed))))
     # ---- multi-kilobyte messages
     if quick:
-        bigs = [("classic", "AES", 16, "CBC"), ("classic", "AES", 16, "CTR"), ("aead", "AES", 16, "GCM"),
-                ("aead", "ChaCha20", 32, "CHAPOLY"), ("stream", "ChaCha20", 32, None)]
+        bigs = [("classic", "AES", 16, "CBC"), ("classic", "AES", 16, "CTR"), ("classic", "AES", 16, "CFB"),
+                ("aead", "AES", 16, "GCM"), ("aead", "AES", 16, "CCM"), ("aead", "AES", 16, "EAX"),
+                ("aead", "AES", 16, "OCB"), ("aead", "AES", 32, "SIV"),
+                ("aead", "ChaCha20", 32, "CHAPOLY"), ("stream", "ChaCha20", 32, None), ("stream", "Salsa20", 32, None),
+                ("stream", "ARC4", 16, None)]
         Ls = (1023, 1024, 1025, 4095, 4096, 4097)
     else:
         bigs = [("classic", "AES", 16, m) for m in ("ECB", "CBC", "CFB", "CFB128", "OFB", "CTR", "OPENPGP")]
@@ -1120,6 +1134,13 @@ def cases_of(shard, quick, seed):
         ls = lens_all(BS[c]) if lsel == "all" else lens_few(BS[c])
         for cfg in classic_cfgs(c, klen, eff, vc, seed, group):
             yield ("classic", cfg, ls)
+        if group == "ctrn":
+            # a one-byte counter used for its full cycle of 256 blocks (wrapping through zero): legal, nothing repeats
+            bs = BS[c]
+            base = {"part": "classic", "c": c, "klen": klen, "eff": eff, "vc": vc, "seed": seed, "mode": "CTR"}
+            full = [255 * bs, 256 * bs - 1, 256 * bs]
+            yield ("classic", dict(base, ctr={"kind": "nonce", "nl": bs - 1, "iv": 0x80}), full)
+            yield ("classic", dict(base, ctr={"kind": "counter", "p": 3, "cl": 1, "s": bs - 4, "le": True, "iv": 0xF9}), full)
     elif kind == "aead":
         _, mode, c, klen, nl, vc = shard
         for cfg in aead_grid(mode, c, klen, nl, vc, seed, quick):
@@ -1165,9 +1186,21 @@ def cases_of(shard, quick, seed):
     elif kind == "chacha":
         _, nl, vc = shard
         yield ("stream", {"part": "stream", "c": "ChaCha20", "klen": 32, "vc": vc, "seed": seed, "nl": nl}, lens_all(64))
-        for pos in (0, 1, 63, 64, 65, 127, 128, 64 * 255 + 63, 64 * 256, 64 * 65536 + 1):
+        for pos in (0, 1, 63, 64, 65, 127, 128, 64 * 255 + 63, 64 * 256, 64 * 65536 + 1, 64 * (2 ** 32 - 11) + 5):
             yield ("stream", {"part": "stream", "c": "ChaCha20", "klen": 32, "vc": vc, "seed": seed, "nl": nl,
                               "seek": pos}, [0, 1, 63, 64, 65, 129, 513])
+        if nl == 8:      # 64-bit block counter: the carry out of the low counter word happens inside the message
+            for pos in (64 * (2 ** 32 - 1) + 60, 64 * (2 ** 32 - 2) + 3, 64 * 2 ** 32, 64 * (2 ** 32 + 1) + 1,
+                        64 * (2 ** 40 - 1) + 63):
+                yield ("stream", {"part": "stream", "c": "ChaCha20", "klen": 32, "vc": vc, "seed": seed, "nl": nl,
+                                  "seek": pos}, [0, 1, 5, 64, 65, 130, 513])
+        else:            # 32-bit block counter: everything up to and including block 2^32-1 is legal (RFC 8439)
+            yield ("stream", {"part": "stream", "c": "ChaCha20", "klen": 32, "vc": vc, "seed": seed, "nl": nl,
+                              "seek": 64 * (2 ** 32 - 2) + 3}, [0, 1, 61])
+            yield ("stream", {"part": "stream", "c": "ChaCha20", "klen": 32, "vc": vc, "seed": seed, "nl": nl,
+                              "seek": 64 * (2 ** 32 - 2) + 3, "lastblock": True}, [62, 125])
+            yield ("stream", {"part": "stream", "c": "ChaCha20", "klen": 32, "vc": vc, "seed": seed, "nl": nl,
+                              "seek": 64 * (2 ** 32 - 1), "lastblock": True}, [1, 64])
     elif kind == "kw":
         _, klen, vc = shard
         for L in list(range(16, 8 * 46 + 1, 8)) + [512, 1024]:
@@ -1243,13 +1276,20 @@ def run_case(t, acc):
         fn(t[1], acc)
 
 
+# the shards whose first case is copied into the evidence file as a sample (one each, so the samples are diverse)
+SAMPLE_SHARDS = (("classic", "AES", 16, None, "seed", "basic", "all"), ("aead", "GCM", "AES", 16, 13, "seed"),
+                 ("aead", "CHAPOLY", "ChaCha20", 32, 24, "seed"), ("kw", 16, "seed"), ("chacha", 24, "seed"),
+                 ("aead", "OCB", "AES", 16, 15, "seed"))
+
+
 def worker(arg):
     shard, quick, seed = arg
     acc = Acc()
+    acc.MAX_SAMPLES = 1 if shard in SAMPLE_SHARDS else 0
     t0 = time.time()
     for t in cases_of(shard, quick, seed):
         run_case(t, acc)
-    acc.n["cpu_" + shard[0]] = acc.n.get("cpu_" + shard[0], 0) + (time.time() - t0)
+    acc.n["_cpu_" + shard[0]] = acc.n.get("_cpu_" + shard[0], 0) + (time.time() - t0)
     return acc
 
 
@@ -1267,8 +1307,11 @@ def canaries(acc):
         acc.error("canary: GCM 13-byte nonce comparison is not discriminating")
     if AES.new(key, AES.MODE_CFB, iv=bytes(16), segment_size=16).encrypt(pt) == M.cfb_encrypt(R, bytes(16), pt, 8):
         acc.error("canary: CFB segment size does not influence the reference")
-    if M.ccm_encrypt(R, asc(11), bytes(0xFF00), pt, 8)[1] == M.ccm_encrypt(R, asc(11), bytes(0xFEFF) + b"\0", pt, 8)[1]:
-        pass
+    from Crypto.Cipher import ChaCha20
+    x = ChaCha20.new(key=asc(32), nonce=asc(24, 7))
+    if x.nonce != asc(24, 7) or x.encrypt(pt) != _xor(pt, R_cc.chacha20_stream(asc(32), asc(24, 7), 40)) \
+            or x.nonce == bytes(4) + asc(8, 23):
+        acc.error("canary: XChaCha20 nonce attribute / keystream comparison is not discriminating")
     a, b = M.ocb_encrypt(R, asc(12, 0), b"", pt)[0], M.ocb_encrypt(R, asc(11, 0) + b"\x4b", b"", pt)[0]
     if a == b:
         acc.error("canary: OCB bottom bits do not influence the reference")
@@ -1309,9 +1352,10 @@ def run(ctx):
     ctx.require(set(t[1] for t in a.distinct.get("classes", ()) if t[0] == "kw") == {"KW", "KWP"}, "KW/KWP not executed")
     ctx.require(set(t[1] for t in a.distinct.get("classes", ()) if t[0] == "stream") == {"ARC4", "Salsa20", "ChaCha20"},
                 "a stream cipher was not executed")
-    mins = {"block_cases": 900 if q else 60000, "classic_cases": 60000 if q else 1500000,
-            "aead_cases": 15000 if q else 250000, "stream_cases": 5000 if q else 150000,
-            "kw_cases": 500, "auto_cases": 600, "des3key_cases": 8000 if q else 24000, "kat_cases": 10}
+    # planned grid sizes (measured on a complete run; the grids are seed-independent) minus a 3 % margin
+    mins = {"block_cases": 32000 if q else 64000, "classic_cases": 990000 if q else 4500000,
+            "aead_cases": 90000 if q else 610000, "stream_cases": 83000 if q else 166000,
+            "kw_cases": 570 if q else 1170, "auto_cases": 730, "des3key_cases": 22700, "kat_cases": 10}
     for k, v in mins.items():
         ctx.require(n(k, 0) >= v, "%s = %d < %d: the grid was not fully executed" % (k, n(k, 0), v))
     ctx.require(n("bytes_compared", 0) > 10 ** 6, "fewer than 1 MB of output compared")
@@ -1321,7 +1365,7 @@ def run(ctx):
     ctx.require(n("tape_calls", 0) >= n("auto_cases", 0) > 0, "entropy tape not consulted for every library-chosen IV/nonce")
     al = a.distinct.get("auto_len", set())
     ctx.require(len(al) >= 14, "library-chosen IV/nonce: fewer than 14 (mode, block size, length) classes seen: %r" % sorted(al))
-    ctx.require(len(a.distinct.get("classes", ())) >= (2500 if q else 9000), "fewer distinct shape classes than the grid must produce")
+    ctx.require(len(a.distinct.get("classes", ())) >= (148000 if q else 205000), "fewer distinct shape classes than the grid must produce")
     ctx.require(n("_shards", 0) == len(shards), "not every shard reported")
 
     ctx.coverage_extra.update({
@@ -1330,7 +1374,7 @@ def run(ctx):
         "exhaustive": not a.caps,
         "bytes_compared": n("bytes_compared", 0),
         "cases_per_part": {k[:-6]: n(k, 0) for k in mins},
-        "cpu_s_per_part": {k[4:]: round(v, 1) for k, v in a.n.items() if k.startswith("cpu_")},
+        "cpu_s_per_part": {k[5:]: round(v, 1) for k, v in a.n.items() if k.startswith("_cpu_") and len(k) > 6},
         "selftest_s": round(t_self, 1),
         "shards": len(shards),
         "grid": {
@@ -1367,14 +1411,16 @@ def run(ctx):
                        "that the counter starts at 2^n-{1,2,3,8,9,10}",
             "stream": "RC4 key length 1..256 all x drop {none,3072} (boundary key lengths: {none,0,1,255,256,257,768,3072}) x "
                       "length 0..65 all + {255..257,511..513}; Salsa20 16/32 and ChaCha20 nonce 8/12/24 x length 0..513 all "
-                      "+ {1023..1025,1536,1537}; ChaCha20.seek at 10 positions",
+                      "+ {1023..1025,1536,1537}; ChaCha20.seek at 11 positions + around block 2^32 (8-byte nonce: carry into the high "
+                      "counter word; 12/24-byte nonce: up to block 2^32-2, last block observed only)",
             "kw": "KW payload 16..368 step 8 all + {512,1024}; KWP payload 1..41 all + {63..65,255..257,343..345,1025}; AES 128/192/256",
             "auto": "library-chosen IV/nonce via tape (4 value classes) for CBC/CFB/OFB/OpenPGP/EAX on all 6 block ciphers, "
                     "CTR/GCM/CCM/OCB on AES, ChaCha20, Salsa20, ChaCha20-Poly1305; decrypted by the reference from cipher.iv/nonce only",
             "des3key": "adjust_key_parity + DES3.new: all 256 values at every byte position of 2 base keys per key length; "
                        "K1=K2 / K2=K3 / K1=K2=K3 / K1=K3 under all 256 parity-bit masks; all 64 one-bit neighbours of a degenerate key",
-            "multi_kilobyte": ("lengths {1023,1024,1025,4095,4096,4097}: AES-128 CBC (block multiples), CTR, GCM (also AAD of "
-                               "that size); ChaCha20, ChaCha20-Poly1305" if q else
+            "multi_kilobyte": ("lengths {1023,1024,1025,4095,4096,4097}: AES-128 CBC (nearest block multiples), CTR, CFB8, GCM "
+                               "(also AAD of that size), CCM, EAX, OCB, AES-256-SIV; ChaCha20, Salsa20, RC4, ChaCha20-Poly1305"
+                               if q else
                                "lengths {1023,1024,1025,4095,4096,4097,65537} x {seed,ones}: AES-128 ECB/CBC (nearest block "
                                "multiples) CFB8 CFB128 OFB CTR OpenPGP GCM(+AAD of that size) CCM EAX OCB, AES-256 CTR/GCM/SIV, "
                                "3DES CBC/CTR, Blowfish CFB8, CAST OFB, RC2 CBC, ChaCha20, Salsa20, RC4, ChaCha20-Poly1305, KW, "
